@@ -748,6 +748,14 @@ class Explorer:
             except Unsupported as e:
                 self.unsupported.append(f"{function_name}: {e} [path {' '.join(path.sig)}]")
                 self.path_log.append((function_name, " ".join(path.sig), f"unsupported: {e}", path.obl_count))
+            except (TypeError, AttributeError, KeyError, IndexError, ValueError, NotImplementedError) as e:
+                # the model of a host-level value does not support what the (edited) source does with it:
+                # outside the supported subset -> undecided, never 'held'
+                import traceback as _tb
+                where = _tb.extract_tb(e.__traceback__)[-1]
+                self.unsupported.append(f"{function_name}: host-level model error {type(e).__name__}: {e} "
+                                        f"(at {where.filename.split('/')[-1]}:{where.lineno}) [path {' '.join(path.sig)}]")
+                self.path_log.append((function_name, " ".join(path.sig), f"model error: {e}", path.obl_count))
             finally:
                 _current = prev
         self.current_function = None
